@@ -9,6 +9,7 @@
 #include <string.h>
 #include <locale.h>
 #include <unistd.h>
+#include <errno.h>
 #include "libconfig.h"
 
 static char *unhex(const char *s, size_t *lenp)
@@ -18,6 +19,16 @@ static char *unhex(const char *s, size_t *lenp)
   n = strlen(s) / 2; r = malloc(n + 1);
   for (size_t i = 0; i < n; i++) { unsigned v; sscanf(s + 2 * i, "%2x", &v); r[i] = (char)v; }
   r[n] = 0; if (lenp) *lenp = n; return r;
+}
+/* a stream that delivers its data and then fails (EIO) */
+struct failing { const char *data; size_t len, pos; };
+static ssize_t failing_read(void *c, char *buf, size_t size)
+{
+  struct failing *k = c; size_t n = k->len - k->pos;
+  if (n == 0) { errno = EIO; return -1; }
+  if (n > size) n = size;
+  memcpy(buf, k->data + k->pos, n); k->pos += n;
+  return (ssize_t)n;
 }
 static int radix(void) { char b[16]; snprintf(b, sizeof b, "%.1f", 1.5); return (unsigned char)b[1]; }
 
@@ -43,8 +54,18 @@ int main(int argc, char **argv)
       config_init(&cfg); config_init(&cfg2);
       if (!strcmp(w[3], "string")) ok = config_read_string(&cfg, text);
       else if (!strcmp(w[3], "stream")) { f = len ? fmemopen(text, len, "r") : fopen("/dev/null", "r"); ok = config_read(&cfg, f); fclose(f); }
+      else if (!strcmp(w[3], "failstream")) {
+        /* the caller's stream fails after delivering the text: the read fails with an I/O error */
+        struct failing fk = { text, len, 0 }; cookie_io_functions_t io = { failing_read, NULL, NULL, NULL };
+        f = fopencookie(&fk, "r", io); ok = config_read(&cfg, f); fclose(f);
+      }
+      else if (!strcmp(w[3], "badfile")) ok = config_read_file(&cfg, "/proc/self/mem");     /* opens, every read fails */
+      else if (!strcmp(w[3], "missing")) ok = config_read_file(&cfg, "no-such-file.cfg");
       else { f = fopen("in.cfg", "wb"); fwrite(text, 1, len, f); fclose(f); ok = config_read_file(&cfg, "in.cfg"); }
       tp = uselocale((locale_t)0) == expect;
+      /* a write that fails (the directory does not exist) must restore the locale too */
+      (void)config_write_file(&cfg, "no-such-dir-c15/out.cfg");
+      tp = tp && uselocale((locale_t)0) == expect;
       f = open_memstream(&m1, &l1); config_write(&cfg, f); fclose(f);
       tp = tp && uselocale((locale_t)0) == expect;
       ok2 = config_write_file(&cfg, "out.cfg") && config_read_file(&cfg2, "out.cfg");
